@@ -4,6 +4,7 @@ from ..check import Slice, Query
 from ..summary import Item, items, is_ok, modules, bv
 
 ID = 'C15'
+ENGINE_B = {'template': 't_extern', 'kinds': ['singleton_', 'externval_'], 'max_quick': 12, 'max_thorough': 64}
 TYPES = {0: ['raw', 'u32'], 1: ['raw', 'u64'], 2: ['const*', ['raw', 'm::T']], 3: ['mut*', ['raw', 'u8']], 5: ['raw', 'bool'],
          7: ['array', ['raw', 'u32'], 4], 8: ['const*', ['raw', 'm::E']]}
 TXT = {0: 'u32', 1: 'u64', 2: '*const T', 3: '*mut u8', 4: 'Nope', 5: 'bool', 6: '*const Nope', 7: '[u32; 4]', 8: '*const E'}
